@@ -1402,6 +1402,10 @@ func checkC13(p *core.Program, r *core.Report) {
 			r.Fail(R2, tn+" read step", "", "the read pump's message source is not recognisable")
 		}
 	}
+	// ---- R12 a failed read delivers nothing
+	const R12c = "C13.R12 failed-read-delivers-nothing"
+	r.Rule(R12c, "what the read pump delivers is the complete result of one successful library read (shared with C06.R7): a body that is assembled by hand with the read error dropped hands the truncated prefix of a message to the SHIP layer after the read that failed")
+	importRules(p, r, "C06", map[string]string{"C06.R7 no-message-size-limit": R12c}, func(key string) bool { return strings.Contains(key, "delivered message") })
 	// ---- R10 callbacks into the SHIP layer are open calls
 	const R10 = "C13.R10 callbacks-hold-no-transport-lock"
 	r.Rule(R10, "every call of the data-processing callbacks (ReportConnectionError, HandleIncomingWebsocketMessage) is made with no mutex of the websocket connection held on any path: the SHIP layer reacts to a reported error by calling back into the transport (CloseDataConnection with a reason writes a close frame and takes the write mutex), so a report made under that mutex blocks the reporting pump for ever and the end of the connection is never told")
